@@ -48,8 +48,10 @@ func ParseAndValidateServerName(serverName ServerName) (host string, port int, v
 	}
 
 	// try parsing as an IPv4 address
+	// (dotted decimal only: To4 also succeeds for an IPv4-mapped IPv6 address
+	// such as ::ffff:1.2.3.4, which like every IPv6 literal needs brackets)
 	ip := net.ParseIP(host)
-	if ip != nil && ip.To4() != nil {
+	if ip != nil && ip.To4() != nil && !strings.Contains(host, ":") {
 		valid = true
 		return
 	}
